@@ -527,7 +527,17 @@ func workerMain(t *testing.T) {
 			// new signature: minimise and write a replay file
 			streams := tape.Streams()
 			stop := watchdog(900*time.Second, &what)
-			small, execs := shrink(p, tier, variant, runSeed, streams, v.Sig, 300, 90*time.Second)
+			maxEx, maxDur := 300, 90*time.Second
+			if tier == "quick" {
+				maxEx, maxDur = 120, 20*time.Second
+			}
+			if rem := budget - time.Since(t0); rem < maxDur {
+				maxDur = rem
+				if maxDur < 3*time.Second {
+					maxDur = 3 * time.Second
+				}
+			}
+			small, execs := shrink(p, tier, variant, runSeed, streams, v.Sig, maxEx, maxDur)
 			close(stop)
 			// final confirmation of the minimised tape in this process
 			fin := execute(p, simrt.ReplayTape(runSeed, small), tier, variant)
